@@ -12,6 +12,7 @@ RULE = ('cases = every tabulation target (11 potable targets + writePotentials x
         'dipole and quadrupole functions all occur), through (a) the Python API with counting/raising proxies around every callable and a '
         'recording sink, followed by a second write() on the same object, and (b) potable main() in-process with a formula that leaves its '
         'domain at row i of function j (every function x every row) + real subprocess runs; non-trivial = every k (each is a distinct crash point)')
+RULE += '; 14 exception classes incl. KeyboardInterrupt / SystemExit / AttributeError (also with every proxy as the only range of a multi-range form); evaluations that RETURN a complex number or None at k (a write that does not fail must emit a complete table); write-only and gzip text sinks; six-species 10^4-row tables failing late; potable formulas whose value becomes complex (negative base ** 1.5)'
 ASSUMPTIONS = [
     'a failing evaluation is modelled as an exception raised by the model callable (Python API) or by pymath.sqrt of a negative number inside a formula (potable)',
     'the sink is an in-memory file object (text or binary as open_fp would give) or the named OUTPUT_FILE',
